@@ -6,7 +6,7 @@
      c08.avro_longs(.post)  [[bytes]]     read_blocks: [[0];vals] | [[-1;3]] | panic [[2]..] | hang [[3]..]
      c08.ipc_batch(.post)   [[type codes];[nodes];[buffers];[body len];[length]]
      c08.knownclass         args ++ [[-7777]] ++ outcome -> [[1]] iff the outcome is Abort on a Parquet input whose footer declares
-                            a list count beyond 2^20 and beyond the bytes that follow it (thrift pre-allocation finding);
+                            a list count beyond 2^14 and beyond the bytes that follow it (thrift pre-allocation finding);
                             [[10+i]] iff the outcome is a panic of the i-th known class; else [[0]] *)
 From Coq Require Import List ZArith NArith String Bool.
 From AV Require Import Base.Codec Model.C08_Thrift Model.C08_Avro Model.C08_Ipc.
